@@ -219,3 +219,19 @@ Print Assumptions C07_other_thread_at_most_once.
 Theorem C07_no_other_thread : forall beh n h s log, dispatch_x beh (fun _ => []) n h s log = dispatch beh n h s log.
 Proof. exact dispatch_x_none. Qed.
 Print Assumptions C07_no_other_thread.
+
+(* ---- the stream of reads from the link, with timeouts and FAILING reads (Model.run_stream) ---- *)
+(* link.receive_packet returns a packet, None, or raises.  For every stream: the deliveries are exactly those of `run` on
+   the packets handed out before the first failing read — each received packet is dispatched once (all theorems above
+   apply to it), no packet twice, nothing after the failure; an exception of the read ends the loop (alive = false), it is
+   not a property of port callbacks and not covered by the text (observation). *)
+Theorem C07_read_stream_exactly_once : forall beh rs n s log,
+  let '(s1, log1, alive1) := run beh n (handed_out rs) s log in
+  run_stream beh n rs s log = (s1, log1, alive1 && negb (read_fails rs)).
+Proof. exact run_stream_prefix. Qed.
+Print Assumptions C07_read_stream_exactly_once.
+
+Theorem C07_read_stream_without_faults : forall beh rs n s log, read_fails rs = false ->
+  run_stream beh n rs s log = run beh n (handed_out rs) s log.
+Proof. exact run_stream_no_fault. Qed.
+Print Assumptions C07_read_stream_without_faults.
